@@ -5,61 +5,108 @@ use std::io;
 
 /// Byte-wise UTF-8 validator written from Unicode Table 3-7 (well-formed byte sequences).
 /// Independent of `core::str::from_utf8` / simdutf8; checked against `core` by the
-/// lemma harness `utf8_model_matches_core_*`.
+/// lemma harnesses.  Written as a one-byte-per-iteration state machine with no early exit so
+/// that the loop counter stays concrete under symbolic execution (a validator that advances
+/// by a content-dependent stride makes every later index symbolic).
 pub fn utf8_model(b: &[u8]) -> bool {
     let n = b.len();
+    let mut ok = true;
+    let mut need: u8 = 0; // continuation bytes still expected
+    let mut lo: u8 = 0x80; // allowed range of the next continuation byte
+    let mut hi: u8 = 0xBF;
     let mut i = 0;
     while i < n {
         let c = b[i];
-        if c < 0x80 {
-            i += 1;
-            continue;
-        }
-        let (need, lo, hi) = if c >= 0xC2 && c <= 0xDF {
-            (1, 0x80u8, 0xBFu8)
-        } else if c == 0xE0 {
-            (2, 0xA0, 0xBF)
-        } else if (c >= 0xE1 && c <= 0xEC) || c == 0xEE || c == 0xEF {
-            (2, 0x80, 0xBF)
-        } else if c == 0xED {
-            (2, 0x80, 0x9F)
-        } else if c == 0xF0 {
-            (3, 0x90, 0xBF)
-        } else if c >= 0xF1 && c <= 0xF3 {
-            (3, 0x80, 0xBF)
-        } else if c == 0xF4 {
-            (3, 0x80, 0x8F)
-        } else {
-            return false;
-        };
-        if i + need >= n {
-            return false;
-        }
-        if b[i + 1] < lo || b[i + 1] > hi {
-            return false;
-        }
-        let mut k = 2;
-        while k <= need {
-            if b[i + k] < 0x80 || b[i + k] > 0xBF {
-                return false;
+        if need == 0 {
+            if c < 0x80 {
+                // ASCII
+            } else if c >= 0xC2 && c <= 0xDF {
+                need = 1;
+                lo = 0x80;
+                hi = 0xBF;
+            } else if c == 0xE0 {
+                need = 2;
+                lo = 0xA0;
+                hi = 0xBF;
+            } else if (c >= 0xE1 && c <= 0xEC) || c == 0xEE || c == 0xEF {
+                need = 2;
+                lo = 0x80;
+                hi = 0xBF;
+            } else if c == 0xED {
+                need = 2;
+                lo = 0x80;
+                hi = 0x9F;
+            } else if c == 0xF0 {
+                need = 3;
+                lo = 0x90;
+                hi = 0xBF;
+            } else if c >= 0xF1 && c <= 0xF3 {
+                need = 3;
+                lo = 0x80;
+                hi = 0xBF;
+            } else if c == 0xF4 {
+                need = 3;
+                lo = 0x80;
+                hi = 0x8F;
+            } else {
+                ok = false;
             }
-            k += 1;
+        } else {
+            if c < lo || c > hi {
+                ok = false;
+            }
+            need -= 1;
+            lo = 0x80;
+            hi = 0xBF;
         }
-        i += need + 1;
+        i += 1;
     }
-    true
+    ok && need == 0
 }
 
 /// topic-name rule of MQTT 4.7 on raw bytes (bytes are assumed UTF-8): no '+', '#', NUL
 pub fn topic_name_bytes_ok(b: &[u8]) -> bool {
+    let mut ok = b.len() <= 65535;
     let mut i = 0;
     while i < b.len() {
         if b[i] == b'+' || b[i] == b'#' || b[i] == 0 {
-            return false;
+            ok = false;
         }
         i += 1;
     }
-    b.len() <= 65535
+    ok
+}
+
+/// MQTT 4.7 on raw bytes for filters that are not shared subscriptions and whose content is
+/// ASCII (callers assume bytes < 0x80): non-empty, no NUL, '#' alone in the last level,
+/// '+' alone in its level. A filter starting with "$share/" is outside this predicate's
+/// domain and reported as not-ok (packet-level harnesses keep filters non-shared).
+pub fn plain_filter_bytes_ok(b: &[u8]) -> bool {
+    let n = b.len();
+    if n == 0 || n > 65535 {
+        return false;
+    }
+    if n >= 7 && b[0] == b'$' && b[1] == b's' && b[2] == b'h' && b[3] == b'a' && b[4] == b'r' && b[5] == b'e' && b[6] == b'/' {
+        return false;
+    }
+    let mut ok = true;
+    let mut i = 0;
+    while i < n {
+        let c = b[i];
+        if c == 0 || c >= 0x80 {
+            ok = false;
+        }
+        let at_start = i == 0 || b[i - 1] == b'/';
+        let at_end = i + 1 == n || b[i + 1] == b'/';
+        if c == b'#' && !(at_start && i + 1 == n) {
+            ok = false;
+        }
+        if c == b'+' && !(at_start && at_end) {
+            ok = false;
+        }
+        i += 1;
+    }
+    ok
 }
 
 // ---------------------------------------------------------------------------------
@@ -97,6 +144,88 @@ pub fn from_utf8_model_stub(input: &[u8]) -> Result<&str, simdutf8::basic::Utf8E
 pub fn from_utf8_assume_valid(input: &[u8]) -> Result<&str, simdutf8::basic::Utf8Error> {
     kani::assume(utf8_model(input));
     Ok(unsafe { std::str::from_utf8_unchecked(input) })
+}
+
+// ---- R3d class stubs: the verdict of each validator call is fixed per query ---------------
+// `BAD_*` = index (in call order) of the one call that is to be in the "invalid" class;
+// usize::MAX = every call is in the "valid" class. Set by the scenario before decoding.
+pub static mut UTF8_CALLS: usize = 0;
+pub static mut UTF8_BAD: usize = usize::MAX;
+pub static mut NAME_CALLS: usize = 0;
+pub static mut NAME_BAD: usize = usize::MAX;
+pub static mut FILTER_CALLS: usize = 0;
+pub static mut FILTER_BAD: usize = usize::MAX;
+
+/// select the class vector of this query (no effect natively: the real validators run)
+pub fn set_classes(utf8_bad: usize, name_bad: usize, filter_bad: usize) {
+    unsafe {
+        UTF8_CALLS = 0;
+        UTF8_BAD = utf8_bad;
+        NAME_CALLS = 0;
+        NAME_BAD = name_bad;
+        FILTER_CALLS = 0;
+        FILTER_BAD = filter_bad;
+    }
+}
+
+#[cfg(kani)]
+pub fn from_utf8_class_stub(input: &[u8]) -> Result<&str, simdutf8::basic::Utf8Error> {
+    let i = unsafe { UTF8_CALLS };
+    unsafe { UTF8_CALLS = i + 1 };
+    if i == unsafe { UTF8_BAD } {
+        kani::assume(!utf8_model(input));
+        Err(simdutf8::basic::Utf8Error)
+    } else {
+        kani::assume(utf8_model(input));
+        Ok(unsafe { std::str::from_utf8_unchecked(input) })
+    }
+}
+
+#[cfg(kani)]
+pub fn topic_name_class_stub(value: &str) -> bool {
+    let i = unsafe { NAME_CALLS };
+    unsafe { NAME_CALLS = i + 1 };
+    if i == unsafe { NAME_BAD } {
+        kani::assume(!topic_name_bytes_ok(value.as_bytes()));
+        true
+    } else {
+        kani::assume(topic_name_bytes_ok(value.as_bytes()));
+        false
+    }
+}
+
+/// packet-level harnesses use ASCII-only, non-shared filter content (chars = bytes); the
+/// validator itself is decided by the C16 unit harnesses over all Unicode scalars
+#[cfg(kani)]
+pub fn topic_filter_class_stub(value: &str) -> (bool, u16) {
+    let i = unsafe { FILTER_CALLS };
+    unsafe { FILTER_CALLS = i + 1 };
+    if i == unsafe { FILTER_BAD } {
+        kani::assume(!plain_filter_bytes_ok(value.as_bytes()));
+        (true, 0)
+    } else {
+        kani::assume(plain_filter_bytes_ok(value.as_bytes()));
+        (false, 0)
+    }
+}
+
+/// `vec![elem; n]` with a fixed capacity: keeps the heap object's size concrete when `n` is a
+/// symbolic term (R2).  For n > K the block is K elements long while `len` says n, so any access
+/// beyond K is caught by CBMC's bounds checks instead of being missed.
+#[cfg(kani)]
+pub fn from_elem_fixed<T: Clone>(elem: T, n: usize) -> Vec<T> {
+    const K: usize = 8;
+    let mut v: Vec<T> = Vec::with_capacity(K);
+    let m = if n <= K { n } else { K };
+    let mut i = 0;
+    while i < m {
+        v.push(elem.clone());
+        i += 1;
+    }
+    if n > K {
+        unsafe { v.set_len(n) };
+    }
+    v
 }
 
 /// single-poll executor: the futures we run are ready on first poll or the harness
